@@ -6,6 +6,8 @@ for f in sorted(glob.glob("/verif/seeded/*/meta.json")):
     m = json.load(open(f))
     ch = (m.get("change") or "").replace("\n", " ").replace("|", "/")
     need = (m.get("needs_to_manifest") or "").replace("\n", " ").replace("|", "/")
+    if m.get("kept_as_valid_seed") is False:
+        ch = "**REJECTED (does not break the property as stated, see REJECTED.txt)** " + ch
     rows.append("| %s | %s | %s | %s | %s | %s |" % (m["id"], m["property"], ch[:260], need[:220], ", ".join(sorted(m.get("detected_by", {}))) or "-", ", ".join(m.get("not_detected_by", [])) or "-"))
 out = ["# Seeded property-breaking changes", "", "Each directory holds patch.diff, demo.py (exit 1 with the change, 0 without), meta.json, confirm.json (my own confirmation in a fresh scratch worktree: demo exit codes + unedited pinned suite result with the change) and detection.json (quick checks run against the change).", "", "| id | property | change | needs to manifest | detected by (quick tier) | run but silent |", "|---|---|---|---|---|---|"] + rows
 open("/verif/seeded/INDEX.md", "w").write("\n".join(out) + "\n")
